@@ -68,6 +68,8 @@ class TerminalClientConnection(BaseModel):
 
     def disconnect(self) -> bool:
         """Disconnect the session."""
+        if not self.parent_terminal._can_perform_action():
+            return False
         return self.parent_terminal._disconnect(connection_uuid=self.connection_uuid)
 
     @abstractmethod
@@ -201,7 +203,7 @@ class Terminal(Service, discriminator="terminal"):
             """Logoff from remote connection."""
             ip_address = IPv4Address(request[0])
             remote_connection = self._get_connection_from_ip(ip_address=ip_address)
-            if remote_connection:
+            if remote_connection and self._can_perform_action():
                 outcome = self._disconnect(remote_connection.connection_uuid)
                 if outcome:
                     return RequestResponse(status="success", data={})
@@ -361,6 +363,8 @@ class Terminal(Service, discriminator="terminal"):
         :return: RemoteTerminalConnection: Connection Object for sending further commands if successful, else False.
         """
         connection_request_id = connection_request_id or str(uuid4())
+        if not is_reattempt and not self._can_perform_action():
+            return None
         if is_reattempt:
             valid_connection_request = self._validate_client_connection_request(connection_id=connection_request_id)
             if valid_connection_request:
